@@ -400,6 +400,26 @@ pub fn run(e: &Engine) {
         |c| c.to_json(),
         check,
     );
+    e.run_prop(
+        "many-streams-long-keys",
+        e.tier.pick(4_000, 100_000),
+        || {
+            let longkey = (proptest::collection::vec(prop_oneof![Just(b'a'), Just(b'b')], 0..=2), prop_oneof![Just(0usize), Just(63), Just(64), Just(65), Just(130)]).prop_map(|(h, pad)| {
+                let mut k = h;
+                k.extend(std::iter::repeat(b'm').take(pad));
+                k
+            });
+            let pairs = proptest::collection::vec((longkey, prop_oneof![Just(u64::MAX), Just(1u64 << 32), Just((1u64 << 32) - 1), 0u64..3]), 0..8).prop_map(gen::sort_dedup);
+            prop_oneof![
+                proptest::collection::vec((kind_strategy(), pairs), 7..=20),
+                // few streams, long keys sharing long prefixes with differing lengths and tails
+                proptest::collection::vec((kind_strategy(), gen::with_long_keys()), 2..=5),
+            ]
+            .prop_map(|streams| Case { streams })
+        },
+        |c| c.to_json(),
+        check,
+    );
     for cls in ["k=1", "k=6", "has_empty_stream", "has_empty_key", "identical_streams", "stream_kind:range", "stream_kind:search", "stream_kind:user", "stream_kind:fst"] {
         e.require_class(cls, 1);
     }
